@@ -155,6 +155,34 @@ pub fn run(which: &'static str, ctx: &Ctx, rep: &mut Report) -> Value {
     json!(out)
 }
 
+/// Replay of a panic recorded while dumping: re-run every observation of that key and report any panic.
+pub fn replay(case: &Value) -> Result<(), String> {
+    let chunk = case["chunk"].as_str().ok_or("no chunk")?;
+    let (head, key_hex) = chunk.split_once(" key ").ok_or("bad chunk name")?;
+    let mut parts = head.split('/');
+    let sname = parts.next().unwrap_or("");
+    let klen: usize = parts.next().and_then(|x| x.parse().ok()).unwrap_or(0);
+    let key = al::unhex(key_hex);
+    let subjects = all_subjects();
+    let s = subjects.iter().find(|x| x.name() == sname).ok_or("unknown subject")?;
+    let mut worst: Option<String> = None;
+    for tier in [crate::alphabet::Tier::Quick, crate::alphabet::Tier::Thorough] {
+        let st = al::star(klen, s.bs(), tier, super::plan_for(s.as_ref(), klen));
+        let Some(ki) = st.keys.iter().position(|k| *k == key) else { continue };
+        let blocks: Vec<&Vec<u8>> = st.pairs.iter().filter(|p| p.0 as usize == ki).map(|&(_, b)| &st.blocks[b as usize]).collect();
+        let mut panics = Vec::new();
+        observe_chunk(s.as_ref(), &key, &blocks, &mut panics);
+        if let Some((op, p)) = panics.into_iter().next() {
+            worst = Some(format!("{op}: panic: {p}"));
+        }
+        break;
+    }
+    match worst {
+        Some(m) => Err(m),
+        None => Ok(()),
+    }
+}
+
 fn special_chunks(which: &'static str, cases: Vec<crate::special::Case>, rep: &mut Report, chunks: &Mutex<BTreeMap<String, u64>>) {
     use crate::special as sp;
     let mut by: BTreeMap<String, Vec<sp::Case>> = BTreeMap::new();
